@@ -79,6 +79,15 @@ class C03(Prop):
             if tot <= (720 if tier == "quick" else 5040):
                 break
         kind = "fast" if rng.random() < 0.7 else "custom"
+        if i % 8 == 4:
+            # custom-motif generator with a size-1 orbit holding several stubs (the order in which singletons are handed out
+            # is a placement too)
+            kind = "custom"
+            sizes[0] = 1
+            for r in jds:
+                r[0] = 0
+            for v in rng.sample(range(N), min(N, rng.randint(2, 3))):
+                jds[v][0] += 1
         builds = ["clique"] * T
         if i % 4 == 2 and kind == "fast":
             # a hand-written sequence whose stub total is not a multiple of the motif size: the last, incomplete group is built
